@@ -42,14 +42,18 @@ Record ostate := {
 }.
 
 (* ---- ordered stores ------------------------------------------------------------------------- *)
+(* Set on a collection kept as a list sorted by key: replace the entry with an equal key, else insert
+   before the first greater entry *)
+Fixpoint sset {A} (lt keq : A -> A -> bool) (x : A) (l : list A) : list A :=
+  match l with
+  | [] => [x]
+  | y :: t => if keq x y then x :: t else if lt x y then x :: y :: t else y :: sset lt keq x t
+  end.
+
 Definition meta_lt (a b : qmeta) : bool := (m_qid a <? m_qid b) || ((m_qid a =? m_qid b) && (m_id a <? m_id b)).
 Definition meta_key_eq (a b : qmeta) : bool := (m_qid a =? m_qid b) && (m_id a =? m_id b).
 
-Fixpoint meta_set (x : qmeta) (l : list qmeta) : list qmeta :=
-  match l with
-  | [] => [x]
-  | y :: t => if meta_key_eq x y then x :: t else if meta_lt x y then x :: y :: t else y :: meta_set x t
-  end.
+Definition meta_set : qmeta -> list qmeta -> list qmeta := sset meta_lt meta_key_eq.
 Definition meta_remove (qid id : Z) (l : list qmeta) : list qmeta :=
   filter (fun y => negb ((m_qid y =? qid) && (m_id y =? id))) l.
 
@@ -63,19 +67,11 @@ Definition rep_lt (a b : report) : bool :=
       || ((rp_reporter a =? rp_reporter b) && (rp_meta a <? rp_meta b)))).
 Definition rep_key_eq (a b : report) : bool :=
   (rp_qid a =? rp_qid b) && (rp_reporter a =? rp_reporter b) && (rp_meta a =? rp_meta b).
-Fixpoint rep_set (x : report) (l : list report) : list report :=
-  match l with
-  | [] => [x]
-  | y :: t => if rep_key_eq x y then x :: t else if rep_lt x y then x :: y :: t else y :: rep_set x t
-  end.
+Definition rep_set : report -> list report -> list report := sset rep_lt rep_key_eq.
 
 Definition agg_lt (a b : aggr) : bool := (ag_qid a <? ag_qid b) || ((ag_qid a =? ag_qid b) && (ag_ts a <? ag_ts b)).
 Definition agg_key_eq (a b : aggr) : bool := (ag_qid a =? ag_qid b) && (ag_ts a =? ag_ts b).
-Fixpoint agg_set (x : aggr) (l : list aggr) : list aggr :=
-  match l with
-  | [] => [x]
-  | y :: t => if agg_key_eq x y then x :: t else if agg_lt x y then x :: y :: t else y :: agg_set x t
-  end.
+Definition agg_set : aggr -> list aggr -> list aggr := sset agg_lt agg_key_eq.
 
 Fixpoint nonce_get (q : Z) (l : list (Z * Z)) : Z :=
   match l with [] => 0 | x :: t => if fst x =? q then snd x else nonce_get q t end.
@@ -294,7 +290,7 @@ Definition accept_spec (s : ostate) (h : Z) (q : qinfo) (stake : option Z) (min_
       match k with
       | KDeposit => true      (* a bridge deposit needs neither tip nor schedule; the window is re-opened *)
       | _ => match current_query (qi_id q) (o_queries s) with
-             | Some m => ((0 <? m_amount m) || m_cycle m) && (h <=? m_expiration m)
+             | Some m => (negb (m_amount m =? 0) || m_cycle m) && (h <=? m_expiration m)
              | None => false
              end
       end
